@@ -6,6 +6,7 @@ CONSTANTS
   Statuses = {200, 404}
   DropPts = {1, 3}
   TmpOks = {TRUE}
+  MoveOks = {TRUE}
   CacheOks = {TRUE}
   Kinds = {"sym", "file"}
   Pres = {FALSE}
